@@ -115,9 +115,14 @@ def dense_obs(sc, system, f):
                 worst = max(worst, num.units(a, num.frac(b), max(Fraction(1), abs(num.frac(b))), eps))
             return worst
         joins = True
+        join_tol = 0
         if prev is not None:
             joins = bool(num.frac(prev.t1) == num.frac(p.t0) and num.canon_bytes(prev.p1) == num.canon_bytes(p.p0))
-        out["pieces"].append({"m0Units": su(p.m0, f0), "m1Units": su(p.m1, f1), "joins": joins})
+            from vf import twins
+            join_tol = max(twins.tol_units(prev.p1, p.p0, rt, at), num.gap_units(prev.t1, p.t0, [p.t0], dt))
+        from vf import twins as _tw
+        out["pieces"].append({"m0Units": su(p.m0, f0), "m1Units": su(p.m1, f1), "joins": joins, "joinTol": int(join_tol),
+                              "m0Tol": _tw.tol_units(p.m0, f0, rt, at), "m1Tol": _tw.tol_units(p.m1, f1, rt, at)})
         prev = p
     prob = sc.get("problem", "osc")
     if prob in ("rat", "tdep") and not rich:
@@ -257,7 +262,8 @@ def observe(sc):
         f = scen.problem(sc.get("problem", "osc"), dt)
         ev = event_obs(sc, lg, system, f) if sc["ops"][0].get("events") else None
         dn = dense_obs(sc, system, f) if sc.get("dense") else None
-        ok = all((e.get("err") is None) for e in lg.events if e["e"] == "ApiRet")
+        rets = [e for e in lg.events if e["e"] == "ApiRet"]
+        ok = bool(rets) and rets[-1].get("err") is None
         if dn is not None:
             dn["ok"] = ok
         return {"id": sc["id"], "trace": tr, "ev": ev, "dense": dn}
